@@ -1,13 +1,19 @@
 /-
   Translation equivalence, util.go (second part): the higher-order helpers `filterList`, `filterMap` and their users
-  `popListMapBoolValue`, `popListMapStringValue`, as harness/cmd/gotrans writes them from /repo's CURRENT util.go
-  (Generated/Trans/Filter.lean, regenerated on every run).
+  `popListString`, `popListMapValue`, `popListMapBoolValue`, `popListMapStringValue`, as harness/cmd/gotrans writes them
+  from /repo's CURRENT util.go (Generated/Trans/Filter.lean, regenerated on every run).
 
-  * `T_filterList_rec` / `T_filterMap_rec`: for an ARBITRARY function value `filter` (also one that runs out of fuel)
-    the translated functions are the plain recursions `filterListRec` / `filterMapRec` below (no hypothesis);
-  * `T_filterList_spec`, `T_filterList_spec_err`, `T_filterList_spec_gerr`, `T_filterList_flatMapR`, and the same for
-    `filterMap`: the results from the per-element behaviour of `filter`;
-  * `T_popListMapBoolValue_eq`: the model's `popListMapBool` (Bkl/Fields.lean);
+  Function literals are translated in STATE-PASSING style: `filter` takes the current values of the variables of the
+  enclosing function it assigns (the state `σ`; `Unit` when it assigns nothing) and returns its results together with
+  the new state; `filterList'`/`filterMap'` thread the state through the loop and return it with their results.
+
+  * `T_filterList_rec` / `T_filterMap_rec`: for an ARBITRARY function value `filter` over an arbitrary state type (also
+    one that runs out of fuel) the translated functions are the plain recursions `filterListRecS` / `filterMapRecS`
+    below (no hypothesis);
+  * `T_filterList_spec` (+ `_err`, `_gerr`), `T_filterList_flatMapR`: filters that do not touch the state;
+    `T_filterList_fold` (+ `_err`, `_gerr`), `T_filterList_foldlM`: stateful filters; and the same for `filterMap`;
+  * `T_popListString_eq`: the model's `popListString`; `T_popListMapValue_eq`: the model's `popListMapValue`;
+    `T_popListMapBoolValue_eq`: the model's `popListMapBool` (all Bkl/Fields.lean);
   * `T_popListMapStringValue_eq`: the model has NO counterpart of `popListMapStringValue` (no other Go function of
     /repo calls it), so it is stated against the explicit specification `popListMapStr` of this file.
   No hypothesis (well-formedness, fuel) is needed anywhere in this unit.
@@ -19,116 +25,188 @@ open Bkl Go
 
 /-! ## filterList -/
 
-/-- `filterList` as a plain recursion (`acc` = the Go variable `ret`): the per-element results are appended; the first
-    element whose `filter` returns a Go error stops with `(nil, err)`; a failure of `filter` itself (fuel) propagates -/
-def filterListRec (filter : Val → G (List Val × Option Err)) : List Val → List Val → G (List Val × Option Err)
-  | [], acc => .ok (acc, none)
-  | x :: xs, acc =>
-    match filter x with
+/-- `filterList` as a plain recursion (`acc` = the Go variable `ret`, `s` = the variables the function literal
+    assigns): the per-element results are appended and the state is threaded; the first element whose `filter` returns
+    a Go error stops with `(nil, err)` and the state as `filter` left it; a failure of `filter` itself (fuel)
+    propagates -/
+def filterListRecS {σ : Type} (filter : Val → σ → G ((List Val × Option Err) × σ)) :
+    List Val → List Val → σ → G ((List Val × Option Err) × σ)
+  | [], acc, s => .ok ((acc, none), s)
+  | x :: xs, acc, s =>
+    match filter x s with
     | .error ge => .error ge
-    | .ok (l2, none) => filterListRec filter xs (acc ++ l2)
-    | .ok (_, some e) => .ok ([], some e)
+    | .ok ((l2, none), s') => filterListRecS filter xs (acc ++ l2) s'
+    | .ok ((_, some e), s') => .ok (([], some e), s')
 
-/-- the loop of filterList, from any accumulator -/
-theorem filterList_loop (filter : Val → G (List Val × Option Err)) (l acc : List Val)
-    (body : Val → List Val → G (Loop (List Val) (List Val × Option Err)))
-    (hbody : ∀ x acc, body x acc = (match filter x with
+/-- the loop of filterList, from any accumulator and state -/
+theorem filterList_loop {σ : Type} (filter : Val → σ → G ((List Val × Option Err) × σ)) (l acc : List Val) (s : σ)
+    (body : Val → List Val × σ → G (Loop (List Val × σ) ((List Val × Option Err) × σ)))
+    (hbody : ∀ x acc s, body x (acc, s) = (match filter x s with
       | .error ge => .error ge
-      | .ok (l2, none) => .ok (.next (acc ++ l2))
-      | .ok (_, some e) => .ok (.ret ([], some e)))) :
-    forRange l acc body = (match filterListRec filter l acc with
+      | .ok ((l2, none), s') => .ok (.next (acc ++ l2, s'))
+      | .ok ((_, some e), s') => .ok (.ret (([], some e), s')))) :
+    forRange l (acc, s) body = (match filterListRecS filter l acc s with
       | .error ge => .error ge
-      | .ok (r, none) => .ok (.inl r)
-      | .ok (r, some e) => .ok (.inr (r, some e))) := by
-  induction l generalizing acc with
+      | .ok ((r, none), s') => .ok (.inl (r, s'))
+      | .ok ((r, some e), s') => .ok (.inr ((r, some e), s'))) := by
+  induction l generalizing acc s with
   | nil => rfl
   | cons x xs ih =>
-    cases h : filter x with
+    cases h : filter x s with
     | error ge =>
       rw [forRange_cons_error (e := ge) (by rw [hbody, h])]
-      simp only [filterListRec, h]
+      simp only [filterListRecS, h]
     | ok p =>
-      obtain ⟨l2, o⟩ := p
+      obtain ⟨⟨l2, o⟩, s'⟩ := p
       cases o with
       | none =>
-        rw [forRange_cons_next (s' := acc ++ l2) (by rw [hbody, h]), ih]
-        simp only [filterListRec, h]
+        rw [forRange_cons_next (s' := (acc ++ l2, s')) (by rw [hbody, h]), ih]
+        simp only [filterListRecS, h]
       | some e =>
-        rw [forRange_cons_ret (r := ([], some e)) (by rw [hbody, h])]
-        simp only [filterListRec, h]
+        rw [forRange_cons_ret (r := (([], some e), s')) (by rw [hbody, h])]
+        simp only [filterListRecS, h]
 
-/-- util.go:filterList, for every `filter`: the plain recursion `filterListRec` from the empty list -/
-theorem T_filterList_rec (l : List Val) (filter : Val → G (List Val × Option Err)) :
-    filterList' l filter = filterListRec filter l [] := by
+/-- util.go:filterList, for every `filter` and every initial state: the plain recursion `filterListRecS` from the
+    empty list -/
+theorem T_filterList_rec {σ : Type} (l : List Val) (filter : Val → σ → G ((List Val × Option Err) × σ)) (st : σ) :
+    filterList' l filter st = filterListRecS filter l [] st := by
   unfold filterList'
   simp only []
-  rw [filterList_loop filter l []]
-  · cases filterListRec filter l [] with
+  rw [filterList_loop filter l [] st]
+  · cases filterListRecS filter l [] st with
     | error ge => rfl
-    | ok p => obtain ⟨r, o⟩ := p; cases o <;> rfl
-  · intro x acc
-    cases filter x with
+    | ok p => obtain ⟨⟨r, o⟩, s'⟩ := p; cases o <;> rfl
+  · intro x acc s
+    cases filter x s with
     | error ge => rfl
-    | ok p => obtain ⟨l2, o⟩ := p; cases o <;> simp
+    | ok p => obtain ⟨⟨l2, o⟩, s'⟩ := p; cases o <;> simp
 
-theorem filterListRec_ok (filter : Val → G (List Val × Option Err)) (f : Val → List Val) (l acc : List Val)
-    (h : ∀ x ∈ l, filter x = .ok (f x, none)) :
-    filterListRec filter l acc = .ok (acc ++ l.flatMap f, none) := by
+/-! ### stateful filters that return no Go error: a left fold -/
+
+/-- one step of `filterList` for a filter that returns the list `f x s` and the new state `g x s` -/
+def filterListStep {σ : Type} (f : Val → σ → List Val) (g : Val → σ → σ) (p : List Val × σ) (x : Val) : List Val × σ :=
+  (p.1 ++ f x p.2, g x p.2)
+
+theorem filterListRecS_append {σ : Type} (filter : Val → σ → G ((List Val × Option Err) × σ))
+    (f : Val → σ → List Val) (g : Val → σ → σ) (pre post acc : List Val) (s : σ)
+    (h : ∀ x ∈ pre, ∀ s, filter x s = .ok ((f x s, none), g x s)) :
+    filterListRecS filter (pre ++ post) acc s =
+      filterListRecS filter post (pre.foldl (filterListStep f g) (acc, s)).1
+        (pre.foldl (filterListStep f g) (acc, s)).2 := by
+  induction pre generalizing acc s with
+  | nil => rfl
+  | cons x xs ih =>
+    simp only [List.cons_append, filterListRecS, h x List.mem_cons_self]
+    rw [ih _ _ (fun y hy => h y (List.mem_cons_of_mem _ hy))]
+    rfl
+
+theorem filterListRecS_fold {σ : Type} (filter : Val → σ → G ((List Val × Option Err) × σ))
+    (f : Val → σ → List Val) (g : Val → σ → σ) (l acc : List Val) (s : σ)
+    (h : ∀ x ∈ l, ∀ s, filter x s = .ok ((f x s, none), g x s)) :
+    filterListRecS filter l acc s =
+      .ok (((l.foldl (filterListStep f g) (acc, s)).1, none), (l.foldl (filterListStep f g) (acc, s)).2) := by
+  have := filterListRecS_append filter f g l [] acc s h
+  rw [List.append_nil] at this
+  rw [this, filterListRecS]
+
+/-- util.go:filterList for a stateful `filter` that returns no Go error (`filter x s` = the list `f x s`, new state
+    `g x s`): the left fold of `filterListStep f g` over the list, from `(nil, st)` -/
+theorem T_filterList_fold {σ : Type} (l : List Val) (filter : Val → σ → G ((List Val × Option Err) × σ))
+    (f : Val → σ → List Val) (g : Val → σ → σ) (st : σ)
+    (h : ∀ x ∈ l, ∀ s, filter x s = .ok ((f x s, none), g x s)) :
+    filterList' l filter st =
+      .ok (((l.foldl (filterListStep f g) ([], st)).1, none), (l.foldl (filterListStep f g) ([], st)).2) := by
+  rw [T_filterList_rec, filterListRecS_fold filter f g l [] st h]
+
+/-- … when the FIRST element on which `filter` returns a Go error comes after `pre`: `(nil, err)` and the state as
+    that call of `filter` left it, whatever list it returned beside the error and whatever happens later -/
+theorem T_filterList_fold_err {σ : Type} (pre post : List Val) (x : Val)
+    (filter : Val → σ → G ((List Val × Option Err) × σ)) (f : Val → σ → List Val) (g : Val → σ → σ) (st s' : σ)
+    (j : List Val) (e : Err)
+    (h : ∀ y ∈ pre, ∀ s, filter y s = .ok ((f y s, none), g y s))
+    (hx : filter x (pre.foldl (filterListStep f g) ([], st)).2 = .ok ((j, some e), s')) :
+    filterList' (pre ++ x :: post) filter st = .ok (([], some e), s') := by
+  rw [T_filterList_rec, filterListRecS_append filter f g pre _ _ _ h]
+  simp only [filterListRecS, hx]
+
+/-- … when `filter` itself fails (it ran out of fuel): the failure propagates -/
+theorem T_filterList_fold_gerr {σ : Type} (pre post : List Val) (x : Val)
+    (filter : Val → σ → G ((List Val × Option Err) × σ)) (f : Val → σ → List Val) (g : Val → σ → σ) (st : σ)
+    (ge : GErr)
+    (h : ∀ y ∈ pre, ∀ s, filter y s = .ok ((f y s, none), g y s))
+    (hx : filter x (pre.foldl (filterListStep f g) ([], st)).2 = .error ge) :
+    filterList' (pre ++ x :: post) filter st = .error ge := by
+  rw [T_filterList_rec, filterListRecS_append filter f g pre _ _ _ h]
+  simp only [filterListRecS, hx]
+
+/-! ### filters that do not touch the state -/
+
+theorem foldl_filterListStep_const {σ : Type} (f : Val → List Val) (l acc : List Val) (s : σ) :
+    l.foldl (filterListStep (fun x _ => f x) (fun _ s => s)) (acc, s) = (acc ++ l.flatMap f, s) := by
   induction l generalizing acc with
-  | nil => simp [filterListRec]
-  | cons x xs ih =>
-    simp only [filterListRec, h x List.mem_cons_self]
-    rw [ih _ (fun y hy => h y (List.mem_cons_of_mem _ hy))]
-    simp
-
-theorem filterListRec_append (filter : Val → G (List Val × Option Err)) (f : Val → List Val) (pre post acc : List Val)
-    (h : ∀ x ∈ pre, filter x = .ok (f x, none)) :
-    filterListRec filter (pre ++ post) acc = filterListRec filter post (acc ++ pre.flatMap f) := by
-  induction pre generalizing acc with
   | nil => simp
-  | cons x xs ih =>
-    simp only [List.cons_append, filterListRec, h x List.mem_cons_self]
-    rw [ih _ (fun y hy => h y (List.mem_cons_of_mem _ hy))]
-    simp
+  | cons x xs ih => rw [List.foldl_cons, filterListStep, ih]; simp
 
-/-- util.go:filterList when `filter` succeeds on every element: the concatenation of the per-element results -/
-theorem T_filterList_spec (l : List Val) (filter : Val → G (List Val × Option Err)) (f : Val → List Val)
-    (h : ∀ x ∈ l, filter x = .ok (f x, none)) :
-    filterList' l filter = .ok (l.flatMap f, none) := by
-  rw [T_filterList_rec, filterListRec_ok filter f l [] h]
+/-- util.go:filterList when `filter` succeeds on every element and leaves the state alone: the concatenation of the
+    per-element results, and the initial state -/
+theorem T_filterList_spec {σ : Type} (l : List Val) (filter : Val → σ → G ((List Val × Option Err) × σ))
+    (f : Val → List Val) (st : σ) (h : ∀ x ∈ l, ∀ s, filter x s = .ok ((f x, none), s)) :
+    filterList' l filter st = .ok ((l.flatMap f, none), st) := by
+  rw [T_filterList_fold l filter (fun x _ => f x) (fun _ s => s) st h, foldl_filterListStep_const]
   simp
 
 /-- util.go:filterList when `filter` returns a Go error: the FIRST such element stops the loop with `(nil, err)`,
     whatever list `filter` returned beside the error and whatever `filter` does on the later elements -/
-theorem T_filterList_spec_err (pre post : List Val) (x : Val) (filter : Val → G (List Val × Option Err))
-    (f : Val → List Val) (j : List Val) (e : Err)
-    (h : ∀ y ∈ pre, filter y = .ok (f y, none)) (hx : filter x = .ok (j, some e)) :
-    filterList' (pre ++ x :: post) filter = .ok ([], some e) := by
-  rw [T_filterList_rec, filterListRec_append filter f pre _ _ h]
-  simp only [filterListRec, hx]
+theorem T_filterList_spec_err {σ : Type} (pre post : List Val) (x : Val)
+    (filter : Val → σ → G ((List Val × Option Err) × σ)) (f : Val → List Val) (st s' : σ) (j : List Val) (e : Err)
+    (h : ∀ y ∈ pre, ∀ s, filter y s = .ok ((f y, none), s)) (hx : filter x st = .ok ((j, some e), s')) :
+    filterList' (pre ++ x :: post) filter st = .ok (([], some e), s') :=
+  T_filterList_fold_err pre post x filter (fun x _ => f x) (fun _ s => s) st s' j e h
+    (by rw [foldl_filterListStep_const]; exact hx)
 
 /-- util.go:filterList when `filter` itself fails (it ran out of fuel): the failure propagates -/
-theorem T_filterList_spec_gerr (pre post : List Val) (x : Val) (filter : Val → G (List Val × Option Err))
-    (f : Val → List Val) (ge : GErr)
-    (h : ∀ y ∈ pre, filter y = .ok (f y, none)) (hx : filter x = .error ge) :
-    filterList' (pre ++ x :: post) filter = .error ge := by
-  rw [T_filterList_rec, filterListRec_append filter f pre _ _ h]
-  simp only [filterListRec, hx]
+theorem T_filterList_spec_gerr {σ : Type} (pre post : List Val) (x : Val)
+    (filter : Val → σ → G ((List Val × Option Err) × σ)) (f : Val → List Val) (st : σ) (ge : GErr)
+    (h : ∀ y ∈ pre, ∀ s, filter y s = .ok ((f y, none), s)) (hx : filter x st = .error ge) :
+    filterList' (pre ++ x :: post) filter st = .error ge :=
+  T_filterList_fold_gerr pre post x filter (fun x _ => f x) (fun _ s => s) st ge h
+    (by rw [foldl_filterListStep_const]; exact hx)
 
-/-- non-vacuity of the three specifications: a filter that drops `null`, keeps strings, rejects booleans and
-    fails on integers -/
-def exampleFilter : Val → G (List Val × Option Err)
-  | .null => .ok ([], none)
-  | .bool _ => .ok ([.null], some Err.invalidType)
-  | .int _ => .error GErr.fuel
-  | x => .ok ([x, x], none)
+/-- non-vacuity of the specifications: a filter that drops `null`, keeps strings twice, rejects booleans and fails on
+    integers; its state counts the calls -/
+def exampleFilter : Val → Nat → G ((List Val × Option Err) × Nat)
+  | .null, n => .ok (([], none), n + 1)
+  | .bool _, n => .ok (([.null], some Err.invalidType), n + 1)
+  | .int _, _ => .error GErr.fuel
+  | x, n => .ok (([x, x], none), n + 1)
 
-example : filterList' [.str "a", .null, .str "b"] exampleFilter = .ok ([.str "a", .str "a", .str "b", .str "b"], none) :=
-  T_filterList_spec _ _ (fun x => match x with | .null => [] | x => [x, x]) (by simp [exampleFilter])
-example : filterList' ([.str "a", .null] ++ .bool true :: [.int 1]) exampleFilter = .ok ([], some Err.invalidType) :=
-  T_filterList_spec_err _ _ _ _ (fun x => match x with | .null => [] | x => [x, x]) [.null] _ (by simp [exampleFilter]) rfl
-example : filterList' ([.str "a", .null] ++ .int 1 :: [.bool true]) exampleFilter = .error GErr.fuel :=
-  T_filterList_spec_gerr _ _ _ _ (fun x => match x with | .null => [] | x => [x, x]) _ (by simp [exampleFilter]) rfl
+/-- … and the same filter without a state -/
+def exampleFilterU (x : Val) (_ : Unit) : G ((List Val × Option Err) × Unit) :=
+  match exampleFilter x 0 with
+  | .error ge => .error ge
+  | .ok (r, _) => .ok (r, ())
+
+example : filterList' [.str "a", .null, .str "b"] exampleFilter 5
+    = .ok (([.str "a", .str "a", .str "b", .str "b"], none), 8) :=
+  T_filterList_fold _ _ (fun x _ => match x with | .null => [] | x => [x, x]) (fun _ n => n + 1) 5
+    (by simp [exampleFilter])
+example : filterList' ([.str "a", .null] ++ .bool true :: [.int 1]) exampleFilter 5
+    = .ok (([], some Err.invalidType), 8) :=
+  T_filterList_fold_err _ _ _ _ (fun x _ => match x with | .null => [] | x => [x, x]) (fun _ n => n + 1) 5 8 [.null] _
+    (by simp [exampleFilter]) rfl
+example : filterList' ([.str "a", .null] ++ .int 1 :: [.bool true]) exampleFilter 5 = .error GErr.fuel :=
+  T_filterList_fold_gerr _ _ _ _ (fun x _ => match x with | .null => [] | x => [x, x]) (fun _ n => n + 1) 5 _
+    (by simp [exampleFilter]) rfl
+example : filterList' [.str "a", .null, .str "b"] exampleFilterU ()
+    = .ok (([.str "a", .str "a", .str "b", .str "b"], none), ()) :=
+  T_filterList_spec _ _ (fun x => match x with | .null => [] | x => [x, x]) () (by simp [exampleFilterU, exampleFilter])
+example : filterList' ([.str "a", .null] ++ .bool true :: [.int 1]) exampleFilterU ()
+    = .ok (([], some Err.invalidType), ()) :=
+  T_filterList_spec_err _ _ _ _ (fun x => match x with | .null => [] | x => [x, x]) () () [.null] _
+    (by simp [exampleFilterU, exampleFilter]) rfl
+example : filterList' ([.str "a", .null] ++ .int 1 :: [.bool true]) exampleFilterU () = .error GErr.fuel :=
+  T_filterList_spec_gerr _ _ _ _ (fun x => match x with | .null => [] | x => [x, x]) () _
+    (by simp [exampleFilterU, exampleFilter]) rfl
 
 /-! ### filters given by a model function with errors -/
 
@@ -164,98 +242,178 @@ theorem flatMapR_of_ok {α β : Type} (g : α → R (List β)) (f : α → List 
   | cons x xs ih =>
     simp [flatMapR, h x List.mem_cons_self, ih (fun y hy => h y (List.mem_cons_of_mem _ hy))]
 
-theorem filterListRec_flatMapR (filter : Val → G (List Val × Option Err)) (g : Val → R (List Val)) (l acc : List Val)
-    (hok : ∀ x ∈ l, ∀ r, g x = .ok r → filter x = .ok (r, none))
-    (herr : ∀ x ∈ l, ∀ e, g x = .error e → ∃ j, filter x = .ok (j, some e)) :
-    filterListRec filter l acc = .ok (match flatMapR g l with
-      | .ok r => (acc ++ r, none)
-      | .error e => ([], some e)) := by
+theorem filterListRecS_flatMapR {σ : Type} (filter : Val → σ → G ((List Val × Option Err) × σ))
+    (g : Val → R (List Val)) (l acc : List Val) (s : σ)
+    (hok : ∀ x ∈ l, ∀ r, g x = .ok r → ∀ s, filter x s = .ok ((r, none), s))
+    (herr : ∀ x ∈ l, ∀ e, g x = .error e → ∀ s, ∃ j, filter x s = .ok ((j, some e), s)) :
+    filterListRecS filter l acc s = .ok (match flatMapR g l with
+      | .ok r => ((acc ++ r, none), s)
+      | .error e => (([], some e), s)) := by
   induction l generalizing acc with
-  | nil => simp [filterListRec, flatMapR]
+  | nil => simp [filterListRecS, flatMapR]
   | cons x xs ih =>
     cases hg : g x with
     | error e =>
-      obtain ⟨j, hj⟩ := herr x List.mem_cons_self e hg
-      simp only [filterListRec, flatMapR, hj, hg]
+      obtain ⟨j, hj⟩ := herr x List.mem_cons_self e hg s
+      simp only [filterListRecS, flatMapR, hj, hg]
     | ok a =>
-      simp only [filterListRec, flatMapR, hok x List.mem_cons_self a hg, hg]
+      simp only [filterListRecS, flatMapR, hok x List.mem_cons_self a hg, hg]
       rw [ih _ (fun y hy => hok y (List.mem_cons_of_mem _ hy)) (fun y hy => herr y (List.mem_cons_of_mem _ hy))]
       cases flatMapR g xs <;> simp
 
-/-- util.go:filterList for a `filter` that implements a model function `g : Val → R (List Val)` (Go `(l, nil)` for
-    `.ok l`, Go `(anything, err)` for `.error err`): the Go pair of `flatMapR g l` -/
-theorem T_filterList_flatMapR (l : List Val) (filter : Val → G (List Val × Option Err)) (g : Val → R (List Val))
-    (hok : ∀ x ∈ l, ∀ r, g x = .ok r → filter x = .ok (r, none))
-    (herr : ∀ x ∈ l, ∀ e, g x = .error e → ∃ j, filter x = .ok (j, some e)) :
-    filterList' l filter = .ok (match flatMapR g l with
-      | .ok r => (r, none)
-      | .error e => ([], some e)) := by
-  rw [T_filterList_rec, filterListRec_flatMapR filter g l [] hok herr]
+/-- util.go:filterList for a `filter` that leaves the state alone and implements a model function
+    `g : Val → R (List Val)` (Go `(l, nil)` for `.ok l`, Go `(anything, err)` for `.error err`): the Go pair of
+    `flatMapR g l`, and the initial state -/
+theorem T_filterList_flatMapR {σ : Type} (l : List Val) (filter : Val → σ → G ((List Val × Option Err) × σ))
+    (g : Val → R (List Val)) (st : σ)
+    (hok : ∀ x ∈ l, ∀ r, g x = .ok r → ∀ s, filter x s = .ok ((r, none), s))
+    (herr : ∀ x ∈ l, ∀ e, g x = .error e → ∀ s, ∃ j, filter x s = .ok ((j, some e), s)) :
+    filterList' l filter st = .ok (match flatMapR g l with
+      | .ok r => ((r, none), st)
+      | .error e => (([], some e), st)) := by
+  rw [T_filterList_rec, filterListRecS_flatMapR filter g l [] st hok herr]
   simp
+
+/-! ### stateful filters given by a model step with errors -/
+
+/-- the step of a model fold over `(state, accumulator)` (the shape of the model's `popListMapValue`) from a per-element
+    function that returns the entries to append and the new state -/
+def foldStepR {σ : Type} (step : Val → σ → R (List Val × σ)) (p : σ × List Val) (x : Val) : R (σ × List Val) :=
+  match step x p.1 with
+  | .error e => .error e
+  | .ok (r, s') => .ok (s', p.2 ++ r)
+
+theorem filterListRecS_foldlM {σ : Type} (filter : Val → σ → G ((List Val × Option Err) × σ))
+    (step : Val → σ → R (List Val × σ)) (l acc : List Val) (s : σ)
+    (hok : ∀ x ∈ l, ∀ s r s', step x s = .ok (r, s') → filter x s = .ok ((r, none), s'))
+    (herr : ∀ x ∈ l, ∀ s e, step x s = .error e → ∃ j s', filter x s = .ok ((j, some e), s')) :
+    ∃ se, filterListRecS filter l acc s = .ok (match l.foldlM (foldStepR step) (s, acc) with
+      | .ok (s1, r) => ((r, none), s1)
+      | .error e => (([], some e), se)) := by
+  induction l generalizing acc s with
+  | nil => exact ⟨s, rfl⟩
+  | cons x xs ih =>
+    rw [List.foldlM_cons]
+    cases hg : step x s with
+    | error e =>
+      obtain ⟨j, s', hj⟩ := herr x List.mem_cons_self s e hg
+      exact ⟨s', by simp only [filterListRecS, hj, foldStepR, hg, bind, Except.bind]⟩
+    | ok p =>
+      obtain ⟨r, s1⟩ := p
+      obtain ⟨se, hse⟩ := ih (acc ++ r) s1 (fun y hy => hok y (List.mem_cons_of_mem _ hy))
+        (fun y hy => herr y (List.mem_cons_of_mem _ hy))
+      exact ⟨se, by simp only [filterListRecS, hok x List.mem_cons_self s r s1 hg, hse, foldStepR, hg, bind, Except.bind]⟩
+
+/-- util.go:filterList for a stateful `filter` that implements a model step `step : Val → σ → R (List Val × σ)` (Go
+    `(l, nil)` and the new state for `.ok (l, s')`, Go `(anything, err)` and any state for `.error err`): the Go pair
+    and the state of the model's left fold with errors; after a Go error the state is whatever `filter` left -/
+theorem T_filterList_foldlM {σ : Type} (l : List Val) (filter : Val → σ → G ((List Val × Option Err) × σ))
+    (step : Val → σ → R (List Val × σ)) (st : σ)
+    (hok : ∀ x ∈ l, ∀ s r s', step x s = .ok (r, s') → filter x s = .ok ((r, none), s'))
+    (herr : ∀ x ∈ l, ∀ s e, step x s = .error e → ∃ j s', filter x s = .ok ((j, some e), s')) :
+    ∃ se, filterList' l filter st = .ok (match l.foldlM (foldStepR step) (st, []) with
+      | .ok (s1, r) => ((r, none), s1)
+      | .error e => (([], some e), se)) := by
+  rw [T_filterList_rec]
+  exact filterListRecS_foldlM filter step l [] st hok herr
+
+/-- … when the model fold succeeds -/
+theorem T_filterList_foldlM_ok {σ : Type} (l : List Val) (filter : Val → σ → G ((List Val × Option Err) × σ))
+    (step : Val → σ → R (List Val × σ)) (st s1 : σ) (r : List Val)
+    (hok : ∀ x ∈ l, ∀ s r s', step x s = .ok (r, s') → filter x s = .ok ((r, none), s'))
+    (herr : ∀ x ∈ l, ∀ s e, step x s = .error e → ∃ j s', filter x s = .ok ((j, some e), s'))
+    (h : l.foldlM (foldStepR step) (st, []) = .ok (s1, r)) :
+    filterList' l filter st = .ok ((r, none), s1) := by
+  obtain ⟨se, hse⟩ := T_filterList_foldlM l filter step st hok herr
+  rw [hse, h]
+
+/-- … when the model fold fails -/
+theorem T_filterList_foldlM_err {σ : Type} (l : List Val) (filter : Val → σ → G ((List Val × Option Err) × σ))
+    (step : Val → σ → R (List Val × σ)) (st : σ) (e : Err)
+    (hok : ∀ x ∈ l, ∀ s r s', step x s = .ok (r, s') → filter x s = .ok ((r, none), s'))
+    (herr : ∀ x ∈ l, ∀ s e, step x s = .error e → ∃ j s', filter x s = .ok ((j, some e), s'))
+    (h : l.foldlM (foldStepR step) (st, []) = .error e) :
+    ∃ se, filterList' l filter st = .ok (([], some e), se) := by
+  obtain ⟨se, hse⟩ := T_filterList_foldlM l filter step st hok herr
+  exact ⟨se, by rw [hse, h]⟩
+
+/-- the same, for use on a hypothesis `filterList' l filter st = res` (the filter need not be written out) -/
+theorem filterList_foldlM_of_eq {σ : Type} {l : List Val} {filter : Val → σ → G ((List Val × Option Err) × σ)} {st : σ}
+    {res : G ((List Val × Option Err) × σ)} (hR : filterList' l filter st = res) (step : Val → σ → R (List Val × σ))
+    (hok : ∀ x ∈ l, ∀ s r s', step x s = .ok (r, s') → filter x s = .ok ((r, none), s'))
+    (herr : ∀ x ∈ l, ∀ s e, step x s = .error e → ∃ j s', filter x s = .ok ((j, some e), s')) :
+    ∃ se, res = .ok (match l.foldlM (foldStepR step) (st, []) with
+      | .ok (s1, r) => ((r, none), s1)
+      | .error e => (([], some e), se)) := by
+  subst hR
+  exact T_filterList_foldlM l filter step st hok herr
 
 /-! ## filterMap -/
 
-/-- `filterMap` as a plain recursion (`acc` = the Go variable `ret`): the entries are visited in order, each result map
-    is written into `ret` entry by entry (`ret[k2] = v2`, i.e. `fsetAll`); the first entry whose `filter` returns a Go
-    error stops with `(nil, err)`; a failure of `filter` itself (fuel) propagates -/
-def filterMapRec (filter : String → Val → G (Fields × Option Err)) : Fields → Fields → G (Fields × Option Err)
-  | [], acc => .ok (acc, none)
-  | (k, v) :: rest, acc =>
-    match filter k v with
+/-- `filterMap` as a plain recursion (`acc` = the Go variable `ret`, `s` = the variables the function literal assigns):
+    the entries are visited in order, each result map is written into `ret` entry by entry (`ret[k2] = v2`, i.e.
+    `fsetAll`) and the state is threaded; the first entry whose `filter` returns a Go error stops with `(nil, err)` and
+    the state as `filter` left it; a failure of `filter` itself (fuel) propagates -/
+def filterMapRecS {σ : Type} (filter : String → Val → σ → G ((Fields × Option Err) × σ)) :
+    Fields → Fields → σ → G ((Fields × Option Err) × σ)
+  | [], acc, s => .ok ((acc, none), s)
+  | (k, v) :: rest, acc, s =>
+    match filter k v s with
     | .error ge => .error ge
-    | .ok (m2, none) => filterMapRec filter rest (fsetAll acc m2)
-    | .ok (_, some e) => .ok ([], some e)
+    | .ok ((m2, none), s') => filterMapRecS filter rest (fsetAll acc m2) s'
+    | .ok ((_, some e), s') => .ok (([], some e), s')
 
 /-- the inner loop of filterMap: `for k2, v2 := range m2 { ret[k2] = v2 }` -/
-theorem filterMap_inner (m2 acc : Fields) (body : String × Val → Fields → G (Loop Fields (Fields × Option Err)))
+theorem filterMap_inner {ρ : Type} (m2 acc : Fields) (body : String × Val → Fields → G (Loop Fields ρ))
     (hbody : ∀ p acc, body p acc = .ok (.next (fset acc p.1 p.2))) :
     forRange m2 acc body = .ok (.inl (fsetAll acc m2)) := by
   rw [forRange_fold (fun acc (p : String × Val) => fset acc p.1 p.2) m2 acc body (fun p _ s => hbody p s)]
   rfl
 
-/-- the outer loop of filterMap, from any accumulator -/
-theorem filterMap_loop (filter : String → Val → G (Fields × Option Err)) (m acc : Fields)
-    (body : String × Val → Fields → G (Loop Fields (Fields × Option Err)))
-    (hbody : ∀ k v acc, body (k, v) acc = (match filter k v with
+/-- the outer loop of filterMap, from any accumulator and state -/
+theorem filterMap_loop {σ : Type} (filter : String → Val → σ → G ((Fields × Option Err) × σ)) (m acc : Fields) (s : σ)
+    (body : String × Val → Fields × σ → G (Loop (Fields × σ) ((Fields × Option Err) × σ)))
+    (hbody : ∀ k v acc s, body (k, v) (acc, s) = (match filter k v s with
       | .error ge => .error ge
-      | .ok (m2, none) => .ok (.next (fsetAll acc m2))
-      | .ok (_, some e) => .ok (.ret ([], some e)))) :
-    forRange m acc body = (match filterMapRec filter m acc with
+      | .ok ((m2, none), s') => .ok (.next (fsetAll acc m2, s'))
+      | .ok ((_, some e), s') => .ok (.ret (([], some e), s')))) :
+    forRange m (acc, s) body = (match filterMapRecS filter m acc s with
       | .error ge => .error ge
-      | .ok (r, none) => .ok (.inl r)
-      | .ok (r, some e) => .ok (.inr (r, some e))) := by
-  induction m generalizing acc with
+      | .ok ((r, none), s') => .ok (.inl (r, s'))
+      | .ok ((r, some e), s') => .ok (.inr ((r, some e), s'))) := by
+  induction m generalizing acc s with
   | nil => rfl
   | cons p rest ih =>
     obtain ⟨k, v⟩ := p
-    cases h : filter k v with
+    cases h : filter k v s with
     | error ge =>
       rw [forRange_cons_error (e := ge) (by rw [hbody, h])]
-      simp only [filterMapRec, h]
+      simp only [filterMapRecS, h]
     | ok q =>
-      obtain ⟨m2, o⟩ := q
+      obtain ⟨⟨m2, o⟩, s'⟩ := q
       cases o with
       | none =>
-        rw [forRange_cons_next (s' := fsetAll acc m2) (by rw [hbody, h]), ih]
-        simp only [filterMapRec, h]
+        rw [forRange_cons_next (s' := (fsetAll acc m2, s')) (by rw [hbody, h]), ih]
+        simp only [filterMapRecS, h]
       | some e =>
-        rw [forRange_cons_ret (r := ([], some e)) (by rw [hbody, h])]
-        simp only [filterMapRec, h]
+        rw [forRange_cons_ret (r := (([], some e), s')) (by rw [hbody, h])]
+        simp only [filterMapRecS, h]
 
-/-- util.go:filterMap, for every `filter`: the plain recursion `filterMapRec` from the empty map -/
-theorem T_filterMap_rec (m : Fields) (filter : String → Val → G (Fields × Option Err)) :
-    filterMap' m filter = filterMapRec filter m [] := by
+/-- util.go:filterMap, for every `filter` and every initial state: the plain recursion `filterMapRecS` from the empty
+    map -/
+theorem T_filterMap_rec {σ : Type} (m : Fields) (filter : String → Val → σ → G ((Fields × Option Err) × σ)) (st : σ) :
+    filterMap' m filter st = filterMapRecS filter m [] st := by
   unfold filterMap'
   simp only []
-  rw [filterMap_loop filter m []]
-  · cases filterMapRec filter m [] with
+  rw [filterMap_loop filter m [] st]
+  · cases filterMapRecS filter m [] st with
     | error ge => rfl
-    | ok p => obtain ⟨r, o⟩ := p; cases o <;> rfl
-  · intro k v acc
-    cases filter k v with
+    | ok p => obtain ⟨⟨r, o⟩, s'⟩ := p; cases o <;> rfl
+  · intro k v acc s
+    cases filter k v s with
     | error ge => rfl
     | ok p =>
-      obtain ⟨m2, o⟩ := p
+      obtain ⟨⟨m2, o⟩, s'⟩ := p
       cases o with
       | some e => simp
       | none =>
@@ -263,28 +421,75 @@ theorem T_filterMap_rec (m : Fields) (filter : String → Val → G (Fields × O
         rw [filterMap_inner m2 acc _ (fun p acc => rfl)]
         simp
 
-theorem filterMapRec_ok (filter : String → Val → G (Fields × Option Err)) (f : String → Val → Fields) (m acc : Fields)
-    (h : ∀ p ∈ m, filter p.1 p.2 = .ok (f p.1 p.2, none)) :
-    filterMapRec filter m acc = .ok (m.foldl (fun acc p => fsetAll acc (f p.1 p.2)) acc, none) := by
-  induction m generalizing acc with
-  | nil => simp [filterMapRec]
-  | cons p rest ih =>
-    obtain ⟨k, v⟩ := p
-    simp only [filterMapRec, h (k, v) List.mem_cons_self]
-    rw [ih _ (fun q hq => h q (List.mem_cons_of_mem _ hq))]
-    simp
+/-! ### stateful filters that return no Go error: a left fold -/
 
-theorem filterMapRec_append (filter : String → Val → G (Fields × Option Err)) (f : String → Val → Fields)
-    (pre post acc : Fields) (h : ∀ p ∈ pre, filter p.1 p.2 = .ok (f p.1 p.2, none)) :
-    filterMapRec filter (pre ++ post) acc =
-      filterMapRec filter post (pre.foldl (fun acc p => fsetAll acc (f p.1 p.2)) acc) := by
-  induction pre generalizing acc with
-  | nil => simp
+/-- one step of `filterMap` for a filter that returns the map `f k v s` and the new state `g k v s` -/
+def filterMapStep {σ : Type} (f : String → Val → σ → Fields) (g : String → Val → σ → σ) (p : Fields × σ)
+    (q : String × Val) : Fields × σ :=
+  (fsetAll p.1 (f q.1 q.2 p.2), g q.1 q.2 p.2)
+
+theorem filterMapRecS_append {σ : Type} (filter : String → Val → σ → G ((Fields × Option Err) × σ))
+    (f : String → Val → σ → Fields) (g : String → Val → σ → σ) (pre post acc : Fields) (s : σ)
+    (h : ∀ p ∈ pre, ∀ s, filter p.1 p.2 s = .ok ((f p.1 p.2 s, none), g p.1 p.2 s)) :
+    filterMapRecS filter (pre ++ post) acc s =
+      filterMapRecS filter post (pre.foldl (filterMapStep f g) (acc, s)).1
+        (pre.foldl (filterMapStep f g) (acc, s)).2 := by
+  induction pre generalizing acc s with
+  | nil => rfl
   | cons p rest ih =>
     obtain ⟨k, v⟩ := p
-    simp only [List.cons_append, filterMapRec, h (k, v) List.mem_cons_self]
-    rw [ih _ (fun q hq => h q (List.mem_cons_of_mem _ hq))]
-    simp
+    simp only [List.cons_append, filterMapRecS, h (k, v) List.mem_cons_self]
+    rw [ih _ _ (fun q hq => h q (List.mem_cons_of_mem _ hq))]
+    rfl
+
+theorem filterMapRecS_fold {σ : Type} (filter : String → Val → σ → G ((Fields × Option Err) × σ))
+    (f : String → Val → σ → Fields) (g : String → Val → σ → σ) (m acc : Fields) (s : σ)
+    (h : ∀ p ∈ m, ∀ s, filter p.1 p.2 s = .ok ((f p.1 p.2 s, none), g p.1 p.2 s)) :
+    filterMapRecS filter m acc s =
+      .ok (((m.foldl (filterMapStep f g) (acc, s)).1, none), (m.foldl (filterMapStep f g) (acc, s)).2) := by
+  have := filterMapRecS_append filter f g m [] acc s h
+  rw [List.append_nil] at this
+  rw [this, filterMapRecS]
+
+/-- util.go:filterMap for a stateful `filter` that returns no Go error (`filter k v s` = the map `f k v s`, new state
+    `g k v s`): the left fold of `filterMapStep f g` over the entries in order, from `({}, st)` — every result map is
+    merged into the accumulator with `fsetAll` (`ret[k2] = v2` for each of its entries, later writes win) -/
+theorem T_filterMap_fold {σ : Type} (m : Fields) (filter : String → Val → σ → G ((Fields × Option Err) × σ))
+    (f : String → Val → σ → Fields) (g : String → Val → σ → σ) (st : σ)
+    (h : ∀ p ∈ m, ∀ s, filter p.1 p.2 s = .ok ((f p.1 p.2 s, none), g p.1 p.2 s)) :
+    filterMap' m filter st =
+      .ok (((m.foldl (filterMapStep f g) ([], st)).1, none), (m.foldl (filterMapStep f g) ([], st)).2) := by
+  rw [T_filterMap_rec, filterMapRecS_fold filter f g m [] st h]
+
+/-- … when the FIRST entry on which `filter` returns a Go error comes after `pre`: `(nil, err)` and the state as that
+    call of `filter` left it -/
+theorem T_filterMap_fold_err {σ : Type} (pre post : Fields) (k : String) (v : Val)
+    (filter : String → Val → σ → G ((Fields × Option Err) × σ)) (f : String → Val → σ → Fields)
+    (g : String → Val → σ → σ) (st s' : σ) (j : Fields) (e : Err)
+    (h : ∀ p ∈ pre, ∀ s, filter p.1 p.2 s = .ok ((f p.1 p.2 s, none), g p.1 p.2 s))
+    (hx : filter k v (pre.foldl (filterMapStep f g) ([], st)).2 = .ok ((j, some e), s')) :
+    filterMap' (pre ++ (k, v) :: post) filter st = .ok (([], some e), s') := by
+  rw [T_filterMap_rec, filterMapRecS_append filter f g pre _ _ _ h]
+  simp only [filterMapRecS, hx]
+
+/-- … when `filter` itself fails (it ran out of fuel): the failure propagates -/
+theorem T_filterMap_fold_gerr {σ : Type} (pre post : Fields) (k : String) (v : Val)
+    (filter : String → Val → σ → G ((Fields × Option Err) × σ)) (f : String → Val → σ → Fields)
+    (g : String → Val → σ → σ) (st : σ) (ge : GErr)
+    (h : ∀ p ∈ pre, ∀ s, filter p.1 p.2 s = .ok ((f p.1 p.2 s, none), g p.1 p.2 s))
+    (hx : filter k v (pre.foldl (filterMapStep f g) ([], st)).2 = .error ge) :
+    filterMap' (pre ++ (k, v) :: post) filter st = .error ge := by
+  rw [T_filterMap_rec, filterMapRecS_append filter f g pre _ _ _ h]
+  simp only [filterMapRecS, hx]
+
+/-! ### filters that do not touch the state -/
+
+theorem foldl_filterMapStep_const {σ : Type} (f : String → Val → Fields) (m acc : Fields) (s : σ) :
+    m.foldl (filterMapStep (fun k v _ => f k v) (fun _ _ s => s)) (acc, s)
+      = (m.foldl (fun acc p => fsetAll acc (f p.1 p.2)) acc, s) := by
+  induction m generalizing acc with
+  | nil => rfl
+  | cons p rest ih => rw [List.foldl_cons, filterMapStep, ih]; rfl
 
 theorem fsetAll_append (acc a b : Fields) : fsetAll acc (a ++ b) = fsetAll (fsetAll acc a) b := by
   simp [fsetAll]
@@ -295,54 +500,195 @@ theorem foldl_fsetAll_eq_flatMap (f : String → Val → Fields) (m acc : Fields
   | nil => simp [fsetAll]
   | cons p rest ih => rw [List.foldl_cons, ih, List.flatMap_cons, fsetAll_append]
 
-/-- util.go:filterMap when `filter` succeeds on every entry: the entries are visited in order and every result map is
-    merged into the accumulator with `fsetAll` (`ret[k2] = v2` for each of its entries, later writes win) -/
-theorem T_filterMap_spec (m : Fields) (filter : String → Val → G (Fields × Option Err)) (f : String → Val → Fields)
-    (h : ∀ p ∈ m, filter p.1 p.2 = .ok (f p.1 p.2, none)) :
-    filterMap' m filter = .ok (m.foldl (fun acc p => fsetAll acc (f p.1 p.2)) [], none) := by
-  rw [T_filterMap_rec, filterMapRec_ok filter f m [] h]
+/-- util.go:filterMap when `filter` succeeds on every entry and leaves the state alone: the entries are visited in
+    order and every result map is merged into the accumulator with `fsetAll` (`ret[k2] = v2` for each of its entries,
+    later writes win); the state is the initial one -/
+theorem T_filterMap_spec {σ : Type} (m : Fields) (filter : String → Val → σ → G ((Fields × Option Err) × σ))
+    (f : String → Val → Fields) (st : σ) (h : ∀ p ∈ m, ∀ s, filter p.1 p.2 s = .ok ((f p.1 p.2, none), s)) :
+    filterMap' m filter st = .ok ((m.foldl (fun acc p => fsetAll acc (f p.1 p.2)) [], none), st) := by
+  rw [T_filterMap_fold m filter (fun k v _ => f k v) (fun _ _ s => s) st h, foldl_filterMapStep_const]
 
 /-- … i.e. the map built (`fofList`) from the concatenation of the per-entry results -/
-theorem T_filterMap_spec_flatMap (m : Fields) (filter : String → Val → G (Fields × Option Err))
-    (f : String → Val → Fields) (h : ∀ p ∈ m, filter p.1 p.2 = .ok (f p.1 p.2, none)) :
-    filterMap' m filter = .ok (fofList (m.flatMap (fun p => f p.1 p.2)), none) := by
-  rw [T_filterMap_spec m filter f h, foldl_fsetAll_eq_flatMap, fofList]
+theorem T_filterMap_spec_flatMap {σ : Type} (m : Fields) (filter : String → Val → σ → G ((Fields × Option Err) × σ))
+    (f : String → Val → Fields) (st : σ) (h : ∀ p ∈ m, ∀ s, filter p.1 p.2 s = .ok ((f p.1 p.2, none), s)) :
+    filterMap' m filter st = .ok ((fofList (m.flatMap (fun p => f p.1 p.2)), none), st) := by
+  rw [T_filterMap_spec m filter f st h, foldl_fsetAll_eq_flatMap, fofList]
 
 /-- util.go:filterMap when `filter` returns a Go error: the FIRST such entry stops the loop with `(nil, err)` -/
-theorem T_filterMap_spec_err (pre post : Fields) (k : String) (v : Val) (filter : String → Val → G (Fields × Option Err))
-    (f : String → Val → Fields) (j : Fields) (e : Err)
-    (h : ∀ p ∈ pre, filter p.1 p.2 = .ok (f p.1 p.2, none)) (hx : filter k v = .ok (j, some e)) :
-    filterMap' (pre ++ (k, v) :: post) filter = .ok ([], some e) := by
-  rw [T_filterMap_rec, filterMapRec_append filter f pre _ _ h]
-  simp only [filterMapRec, hx]
+theorem T_filterMap_spec_err {σ : Type} (pre post : Fields) (k : String) (v : Val)
+    (filter : String → Val → σ → G ((Fields × Option Err) × σ)) (f : String → Val → Fields) (st s' : σ) (j : Fields)
+    (e : Err) (h : ∀ p ∈ pre, ∀ s, filter p.1 p.2 s = .ok ((f p.1 p.2, none), s))
+    (hx : filter k v st = .ok ((j, some e), s')) :
+    filterMap' (pre ++ (k, v) :: post) filter st = .ok (([], some e), s') :=
+  T_filterMap_fold_err pre post k v filter (fun k v _ => f k v) (fun _ _ s => s) st s' j e h
+    (by rw [foldl_filterMapStep_const]; exact hx)
 
 /-- util.go:filterMap when `filter` itself fails (it ran out of fuel): the failure propagates -/
-theorem T_filterMap_spec_gerr (pre post : Fields) (k : String) (v : Val) (filter : String → Val → G (Fields × Option Err))
-    (f : String → Val → Fields) (ge : GErr)
-    (h : ∀ p ∈ pre, filter p.1 p.2 = .ok (f p.1 p.2, none)) (hx : filter k v = .error ge) :
-    filterMap' (pre ++ (k, v) :: post) filter = .error ge := by
-  rw [T_filterMap_rec, filterMapRec_append filter f pre _ _ h]
-  simp only [filterMapRec, hx]
+theorem T_filterMap_spec_gerr {σ : Type} (pre post : Fields) (k : String) (v : Val)
+    (filter : String → Val → σ → G ((Fields × Option Err) × σ)) (f : String → Val → Fields) (st : σ) (ge : GErr)
+    (h : ∀ p ∈ pre, ∀ s, filter p.1 p.2 s = .ok ((f p.1 p.2, none), s)) (hx : filter k v st = .error ge) :
+    filterMap' (pre ++ (k, v) :: post) filter st = .error ge :=
+  T_filterMap_fold_gerr pre post k v filter (fun k v _ => f k v) (fun _ _ s => s) st ge h
+    (by rw [foldl_filterMapStep_const]; exact hx)
 
 /-- non-vacuity: a filter that renames every key to "x" (later entries win), drops `null`, rejects booleans and
-    fails on integers -/
-def exampleFilterMap : String → Val → G (Fields × Option Err)
-  | _, .null => .ok ([], none)
-  | _, .bool _ => .ok ([("junk", .null)], some Err.invalidType)
-  | _, .int _ => .error GErr.fuel
-  | k, x => .ok ([("x", x), (k, x)], none)
+    fails on integers; its state collects the keys it has seen -/
+def exampleFilterMap : String → Val → List String → G ((Fields × Option Err) × List String)
+  | k, .null, ks => .ok (([], none), k :: ks)
+  | k, .bool _, ks => .ok (([("junk", .null)], some Err.invalidType), k :: ks)
+  | _, .int _, _ => .error GErr.fuel
+  | k, x, ks => .ok (([("x", x), (k, x)], none), k :: ks)
 
-example : filterMap' [("b", .str "1"), ("a", .null), ("c", .str "2")] exampleFilterMap
-    = .ok ([("b", .str "1"), ("c", .str "2"), ("x", .str "2")], none) :=
-  T_filterMap_spec _ _ (fun k x => match x with | .null => [] | x => [("x", x), (k, x)]) (by simp [exampleFilterMap])
-example : filterMap' ([("b", .str "1"), ("a", .null)] ++ ("c", .bool true) :: [("d", .int 1)]) exampleFilterMap
-    = .ok ([], some Err.invalidType) :=
-  T_filterMap_spec_err _ _ _ _ _ (fun k x => match x with | .null => [] | x => [("x", x), (k, x)]) _ _
-    (by simp [exampleFilterMap]) rfl
-example : filterMap' ([("b", .str "1"), ("a", .null)] ++ ("c", .int 1) :: [("d", .bool true)]) exampleFilterMap
+/-- … and the same filter without a state -/
+def exampleFilterMapU (k : String) (x : Val) (_ : Unit) : G ((Fields × Option Err) × Unit) :=
+  match exampleFilterMap k x [] with
+  | .error ge => .error ge
+  | .ok (r, _) => .ok (r, ())
+
+example : filterMap' [("b", .str "1"), ("a", .null), ("c", .str "2")] exampleFilterMap []
+    = .ok (([("b", .str "1"), ("c", .str "2"), ("x", .str "2")], none), ["c", "a", "b"]) :=
+  T_filterMap_fold _ _ (fun k x _ => match x with | .null => [] | x => [("x", x), (k, x)]) (fun k _ ks => k :: ks) []
+    (by simp [exampleFilterMap])
+example : filterMap' ([("b", .str "1"), ("a", .null)] ++ ("c", .bool true) :: [("d", .int 1)]) exampleFilterMap []
+    = .ok (([], some Err.invalidType), ["c", "a", "b"]) :=
+  T_filterMap_fold_err _ _ _ _ _ (fun k x _ => match x with | .null => [] | x => [("x", x), (k, x)])
+    (fun k _ ks => k :: ks) [] _ _ _ (by simp [exampleFilterMap]) rfl
+example : filterMap' ([("b", .str "1"), ("a", .null)] ++ ("c", .int 1) :: [("d", .bool true)]) exampleFilterMap []
     = .error GErr.fuel :=
-  T_filterMap_spec_gerr _ _ _ _ _ (fun k x => match x with | .null => [] | x => [("x", x), (k, x)]) _
-    (by simp [exampleFilterMap]) rfl
+  T_filterMap_fold_gerr _ _ _ _ _ (fun k x _ => match x with | .null => [] | x => [("x", x), (k, x)])
+    (fun k _ ks => k :: ks) [] _ (by simp [exampleFilterMap]) rfl
+example : filterMap' [("b", .str "1"), ("a", .null), ("c", .str "2")] exampleFilterMapU ()
+    = .ok (([("b", .str "1"), ("c", .str "2"), ("x", .str "2")], none), ()) :=
+  T_filterMap_spec _ _ (fun k x => match x with | .null => [] | x => [("x", x), (k, x)]) ()
+    (by simp [exampleFilterMapU, exampleFilterMap])
+example : filterMap' ([("b", .str "1"), ("a", .null)] ++ ("c", .bool true) :: [("d", .int 1)]) exampleFilterMapU ()
+    = .ok (([], some Err.invalidType), ()) :=
+  T_filterMap_spec_err _ _ _ _ _ (fun k x => match x with | .null => [] | x => [("x", x), (k, x)]) () () _ _
+    (by simp [exampleFilterMapU, exampleFilterMap]) rfl
+example : filterMap' ([("b", .str "1"), ("a", .null)] ++ ("c", .int 1) :: [("d", .bool true)]) exampleFilterMapU ()
+    = .error GErr.fuel :=
+  T_filterMap_spec_gerr _ _ _ _ _ (fun k x => match x with | .null => [] | x => [("x", x), (k, x)]) () _
+    (by simp [exampleFilterMapU, exampleFilterMap]) rfl
+
+/-! ## popListString -/
+
+theorem foldl_popListString (v : String) (l acc : List Val) (b : Bool) :
+    l.foldl (filterListStep (fun x _ => if x == Val.str v then [] else [x])
+        (fun x (found : Bool) => if x == Val.str v then true else found)) (acc, b)
+      = (acc ++ l.filter (fun x => !(x == Val.str v)), b || l.any (fun x => x == Val.str v)) := by
+  induction l generalizing acc b with
+  | nil => simp
+  | cons x xs ih =>
+    rw [List.foldl_cons, filterListStep, ih]
+    by_cases hx : x = Val.str v
+    · simp [hx]
+    · have hb : (x == Val.str v) = false := by simpa using hx
+      simp [hb]
+
+/-- util.go:popListString is the model's `popListString`: whether the string `v` is an entry of the list, and the list
+    without these entries -/
+theorem T_popListString_eq (l : List Val) (v : String) : popListString' l v = .ok (popListString l v) := by
+  unfold popListString'
+  simp only []
+  rw [T_filterList_fold l _ (fun x _ => if x == Val.str v then [] else [x])
+    (fun x (found : Bool) => if x == Val.str v then true else found) false, foldl_popListString]
+  · simp [popListString]
+  · intro x _ s
+    cases x with
+    | str s' => by_cases h : s' = v <;> simp [asStr, h]
+    | _ => simp [asStr]
+
+example : popListString' [.str "a", .null, .str "b", .str "a", .map [("a", .str "a")]] "a"
+    = .ok (true, [.null, .str "b", .map [("a", .str "a")]]) := by rw [T_popListString_eq]; rfl
+example : popListString' [.null, .str "b"] "a" = .ok (false, [.null, .str "b"]) := by rfl
+
+/-! ## popListMapValue -/
+
+/-- what one list entry does in `popListMapValue` when the value found so far is `ret`: a single-key map `{k: val}` is
+    dropped and `val` becomes the value — an error if a non-null value was found before —, every other entry is kept -/
+def popValueEntry (k : String) : Val → Val → R (List Val × Val)
+  | .map m, ret =>
+    if m.length != 1 then .ok ([.map m], ret)
+    else match fget m k with
+      | some val => if !ret.isNull then .error Err.extraKeys else .ok ([], val)
+      | none => .ok ([.map m], ret)
+  | x, ret => .ok ([x], ret)
+
+/-- the model's `popListMapValue` is the fold of `popValueEntry` -/
+theorem popListMapValue_eq_foldStepR (l : List Val) (k : String) :
+    popListMapValue l k = l.foldlM (foldStepR (popValueEntry k)) (Val.null, []) := by
+  unfold popListMapValue
+  congr 1
+  funext p x
+  obtain ⟨ret, acc⟩ := p
+  cases x with
+  | map m =>
+    simp only [foldStepR, popValueEntry]
+    by_cases h1 : m.length = 1
+    · cases h2 : fget m k with
+      | none => simp [h1, pure, Except.pure]
+      | some val => cases ret <;> simp [h1, Val.isNull, pure, Except.pure, throw, throwThe, MonadExceptOf.throw]
+    · simp [h1, pure, Except.pure]
+  | _ => simp [foldStepR, popValueEntry, pure, Except.pure]
+
+theorem int_ofNat_bne_one (n : Nat) : ((Int.ofNat n) != (1 : Int)) = (n != 1) := by
+  by_cases hn : n = 1
+  · subst hn; rfl
+  · have h' : ¬ Int.ofNat n = 1 := by simp only [Int.ofNat_eq_natCast]; omega
+    rw [(bne_iff_ne).2 h', (bne_iff_ne).2 hn]
+
+theorem ne_null_eq_not_isNull (v : Val) : (v != Val.null) = !v.isNull := by
+  cases v <;> simp [Val.isNull]
+
+/-- util.go:popListMapValue is the model's `popListMapValue`: `(value, rest, nil)`, or `(nil, nil, err)` -/
+theorem T_popListMapValue_eq (l : List Val) (k : String) :
+    popListMapValue' l k = .ok (match popListMapValue l k with
+      | .ok (v, rest) => (v, rest, none)
+      | .error e => (.null, [], some e)) := by
+  unfold popListMapValue'
+  simp only []
+  generalize hR : filterList' l _ Val.null = res
+  refine Exists.elim (filterList_foldlM_of_eq hR (popValueEntry k) ?_ ?_) ?_
+  · clear hR
+    intro x _ s r s' hr
+    cases x with
+    | map m =>
+      simp only [popValueEntry] at hr
+      simp only [asMap, T_popMapValue_eq, ne_null_eq_not_isNull, int_ofNat_bne_one]
+      by_cases h1 : m.length = 1
+      · cases h2 : fget m k with
+        | none => simp_all [fdel_of_not_mem h2]
+        | some val => cases hs : s.isNull <;> simp_all
+      · simp_all
+    | _ => simp_all [popValueEntry, asMap]
+  · clear hR
+    intro x _ s e he
+    cases x with
+    | map m =>
+      simp only [popValueEntry] at he
+      simp only [asMap, T_popMapValue_eq, ne_null_eq_not_isNull, int_ofNat_bne_one]
+      by_cases h1 : m.length = 1
+      · cases h2 : fget m k with
+        | none => simp_all
+        | some val => cases hs : s.isNull <;> simp_all
+      · simp_all
+    | _ => simp_all [popValueEntry]
+  · rintro se rfl
+    rw [popListMapValue_eq_foldStepR]
+    cases List.foldlM (foldStepR (popValueEntry k)) (Val.null, []) l with
+    | error e => simp
+    | ok p => obtain ⟨s1, r⟩ := p; simp
+
+example : popListMapValue' [.str "a", .map [("$k", .str "v")], .map [("x", .null)]] "$k"
+    = .ok (.str "v", [.str "a", .map [("x", .null)]], none) := by rw [T_popListMapValue_eq]; rfl
+example : popListMapValue' [.map [("$k", .str "v")], .map [("$k", .str "w")]] "$k"
+    = .ok (.null, [], some Err.extraKeys) := by rw [T_popListMapValue_eq]; rfl
+/-- Go uses `ret != nil` as "already found": after a first value `null` a second marker entry is accepted -/
+example : popListMapValue' [.map [("$k", .null)], .map [("$k", .str "w")]] "$k"
+    = .ok (.str "w", [], none) := by rw [T_popListMapValue_eq]; rfl
+/-- a marker entry with other keys is not a marker entry -/
+example : popListMapValue' [.map [("$k", .str "v"), ("x", .null)]] "$k"
+    = .ok (.null, [.map [("$k", .str "v"), ("x", .null)]], none) := by rfl
 
 /-! ## popListMapBoolValue -/
 
@@ -390,9 +736,9 @@ theorem T_popListMapBoolValue_eq (l : List Val) (k : String) (v : Bool) :
   | false => simp
   | true =>
     simp only [Bool.not_true, Bool.false_eq_true, if_false, if_true]
-    rw [T_filterList_flatMapR l _ (popBoolEntry k v)]
+    rw [T_filterList_flatMapR l _ (popBoolEntry k v) ()]
     · cases flatMapR (popBoolEntry k v) l <;> simp [Except.map]
-    · intro x _ r hr
+    · intro x _ r hr s
       cases x with
       | map m =>
         simp only [popBoolEntry] at hr
@@ -400,7 +746,7 @@ theorem T_popListMapBoolValue_eq (l : List Val) (k : String) (v : Bool) :
         cases hm : fhasBool m k v <;> simp_all
         split at hr <;> simp_all
       | _ => simp_all [popBoolEntry, asMap]
-    · intro x _ e he
+    · intro x _ e he s
       cases x with
       | map m =>
         simp only [popBoolEntry] at he
@@ -437,9 +783,9 @@ theorem T_popListMapStringValue_eq (l : List Val) (k : String) :
   by_cases hs : getListMapStr l k = ""
   · simp [hs]
   · simp only [beq_iff_eq, hs, if_false]
-    rw [T_filterList_flatMapR l _ (popStrEntry k)]
+    rw [T_filterList_flatMapR l _ (popStrEntry k) ()]
     · cases flatMapR (popStrEntry k) l <;> simp
-    · intro x _ r hr
+    · intro x _ r hr s
       cases x with
       | map m =>
         simp only [popStrEntry] at hr
@@ -447,7 +793,7 @@ theorem T_popListMapStringValue_eq (l : List Val) (k : String) :
         by_cases hm : fgetStr m k = "" <;> simp_all
         split at hr <;> simp_all
       | _ => simp_all [popStrEntry, asMap]
-    · intro x _ e he
+    · intro x _ e he s
       cases x with
       | map m =>
         simp only [popStrEntry] at he
